@@ -66,6 +66,17 @@ def _ok(case):
 def run(prop, tier, seed, replay=None):
     out = common.Outcome(prop, tier, seed)
     proof = common.props_check(prop)
+    if prop == "C05":
+        # the asynchronous nodes' balance theorems live in Props/C05A.v
+        pa = common.props_check("C05A")
+        proof["obligations"] += pa["obligations"]
+        proof["discharged"] += pa["discharged"]
+        proof["theorems"] = proof.get("theorems", []) + pa.get("theorems", [])
+        proof["assumptions"] = dict(proof.get("assumptions", {}), **{"A%s" % k: v for k, v in pa.get("assumptions", {}).items()})
+        if not pa["ok"]:
+            proof["ok"] = False
+            proof["failing"] = proof.get("failing") or pa["failing"]
+            proof["log"] = proof.get("log", "") + pa.get("log", "")
     faults = "direct" if prop == "C16" else None
     want = {"C01": ("C01",), "C10": ("C10",), "C05": ("C05",), "C16": ("C16",)}[prop]
     rng = random.Random(seed * 1000003 + {"C01": 1, "C10": 10, "C05": 5, "C16": 16}[prop])
